@@ -129,7 +129,7 @@ fn sweep_n(n: u64, rep: &mut Report) {
 
 pub fn run(tier: Tier) -> Report {
     crate::engine::WD_LIMIT_S.store(120, std::sync::atomic::Ordering::Relaxed);
-    let lim = Limits { max_states: 1_000_000, keep_final_traces: 3, keep_state_traces: 3, check_coreach: true, ..Default::default() };
+    let lim = Limits { max_states: 1_000_000, keep_final_traces: 3, keep_state_traces: 3, check_coreach: true, probe_every: 8, ..Default::default() };
     let mut rep = run_exchanges(graph_cfgs(), &lim, true, |c| c.to_json());
     let step = if tier.thorough() { 1 } else { 1 };
     let ns: Vec<u64> = (0..=70_000u64).step_by(step).collect();
@@ -147,7 +147,13 @@ pub fn run(tier: Tier) -> Report {
                     sweep_n(n, &mut r);
                     r
                 }) {
-                    Ok(r) => rep.merge(r),
+                    Ok(r) => {
+                        let clean = r.violations.is_empty();
+                        rep.merge(r);
+                        if clean && n % 4099 == 0 {
+                            crate::engine::validate_case(&mut rep, replay, json!({"kind": "seq", "n": n.to_string(), "steps": [[n + 3, n - 1], [4, 4]]}));
+                        }
+                    }
                     Err(p) => rep.violation(Violation { key: format!("C08:panic:{}", crate::engine::panic_site(&p)), ord: n, what: format!("N={}: {}", n, p), replay: json!({"kind": "sweep", "n": n.to_string()}) }),
                 }
             }
